@@ -69,10 +69,6 @@ def open_archive(cfg, root, name, cached=False, seed_dict=None):
     if cfg == 'file_json':
         return ka.file_archive(loc, cached=cached, protocol='json', **kw)
     if cfg == 'file_src':
-        # the import-based reader imports the file by bare name after chdir: '' must be on sys.path,
-        # as in an interactive / -c / -m session (see DESIGN D9b)
-        if '' not in sys.path:
-            sys.path.insert(0, '')
         return ka.file_archive(loc, cached=cached, serialized=False, **kw)
     if cfg == 'dir_dill':
         return ka.dir_archive(loc, cached=cached, **kw)
@@ -211,21 +207,6 @@ def fname(k):
     return ('str', str(k).replace('-', '_'))
 
 
-def alias_free(cfg, keys):
-    """distinct keys (dict semantics) must have distinct directory names for dir archives"""
-    if not is_dir(cfg):
-        return True
-    seen = {}
-    for k in keys:
-        n = fname(k)
-        for k2, n2 in seen.items():
-            pass
-        if n in seen.values() and not any((k == k2 and type(k) is type(k2)) for k2 in seen if seen[k2] == n):
-            return False
-        seen[k] = n
-    return True
-
-
 def src_ok(v):
     """values the source-text codec documents: objects whose repr is importable python (ascii)"""
     if v is None or isinstance(v, (bool, int)):
@@ -257,7 +238,7 @@ def simple_keys(cfg):
                      V.floats())
 
 
-def keymap_keys(cfg):
+def keymap_keys(cfg, stable_only=False):
     c = codec(cfg)
     if c == 'json':
         names = ['str', 'repr', 'md5', 'sha1', 'strnf']
@@ -267,12 +248,14 @@ def keymap_keys(cfg):
         names = ['str', 'repr', 'md5', 'hash', 'pik', 'dillpik', 'strnf']
     else:
         names = KEYMAPS
+    if stable_only:      # hashmap(algorithm=None) is python's hash(): differs between interpreters with different hash seeds
+        names = [n for n in names if n != 'hash']
     arg = st.one_of(V.ints(), V.strs(False), V.floats())
     return st.tuples(st.sampled_from(names), st.lists(arg, min_size=1, max_size=2)).map(lambda t: ['K', t[0], t[1]])
 
 
 @st.composite
-def key_pools(draw, cfg, n=(3, 6)):
+def key_pools(draw, cfg, n=(3, 6), stable_only=False):
     """an alias-free pool of distinct keys in the backend's key domain (specs)"""
     want = draw(st.integers(*n))
     pool, built = [], []
@@ -280,7 +263,7 @@ def key_pools(draw, cfg, n=(3, 6)):
     excluded = 0
     while len(pool) < want and tries < 40:
         tries += 1
-        spec = draw(st.one_of(simple_keys(cfg), keymap_keys(cfg)))
+        spec = draw(st.one_of(simple_keys(cfg), keymap_keys(cfg, stable_only)))
         k = build_key(spec)
         if not key_ok(cfg, k):
             excluded += 1
@@ -349,3 +332,63 @@ def describe(d):
         return '{' + ', '.join(sorted('%r: %r' % kv for kv in d.items())) + '}'
     except Exception:
         return repr(d)
+
+
+# ---------------------------------------------------------------------------
+# write histories (C04, C13, C14): ops are JSON lists over index pools
+
+WRITE_OPS = ['set', 'del', 'pop', 'upd', 'clear', 'setdef', 'popitem']
+
+
+def apply_write(a, op, keys, vals):
+    """apply one mutating op to archive a; returns None (exceptions propagate)"""
+    k = op[0]
+    if k == 'set':
+        a[keys[op[1]]] = vals[op[2]]
+    elif k == 'del':
+        try:
+            del a[keys[op[1]]]
+        except KeyError:
+            pass
+    elif k == 'pop':
+        a.pop(keys[op[1]], None)
+    elif k == 'upd':
+        a.update(dict((keys[i], vals[j]) for i, j in op[1]))
+    elif k == 'clear':
+        a.clear()
+    elif k == 'setdef':
+        a.setdefault(keys[op[1]], vals[op[2]])
+    elif k == 'popitem':
+        try:
+            a.popitem()
+        except KeyError:
+            pass
+    else:
+        raise ValueError(k)
+
+
+def model_write(m, op, keys, vals, popped=None):
+    """the same op on the reference dict m (store-time deep copies). popitem needs the item klepto chose: not modelled here"""
+    import copy
+    k = op[0]
+    if k == 'set':
+        m[keys[op[1]]] = copy.deepcopy(vals[op[2]])
+    elif k == 'del' or k == 'pop':
+        m.pop(keys[op[1]], None)
+    elif k == 'upd':
+        for i, j in op[1]:
+            m[keys[i]] = copy.deepcopy(vals[j])
+    elif k == 'clear':
+        m.clear()
+    elif k == 'setdef':
+        m.setdefault(keys[op[1]], copy.deepcopy(vals[op[2]]))
+    else:
+        raise ValueError(k)
+
+
+def observe(a):
+    """what a reader sees through the public interface: ('ok', dict(items)) or ('exc', type name, text)"""
+    try:
+        return ('ok', dict(a.items()))
+    except BaseException as e:
+        return ('exc', type(e).__name__, repr(e))
